@@ -59,7 +59,11 @@ _C01_REQ = ["blocks_phase0", "blocks_altair", "blocks_bellatrix", "blocks_capell
             "tlc_intent_topup_partial_honoured", "tlc_intent_aslash_mixed_honoured",
             # attester slashings whose intersection mixes slashable and non-slashable validators (valid: skipped)
             "attester_slashing_with_unslashable_member", "attester_slashing_includes_already_slashed",
-            "attester_slashing_includes_not_yet_active", "attester_slashing_includes_withdrawable"]
+            "attester_slashing_includes_not_yet_active", "attester_slashing_includes_withdrawable",
+            # deposit signature-byte shapes x {new pubkey, top-up} in blocks
+            "dep_block_topup_valid", "dep_block_topup_wrong", "dep_block_topup_zero", "dep_block_topup_ff",
+            "dep_block_topup_undecodable", "dep_block_topup_infinity", "dep_block_new_valid", "dep_block_new_wrong",
+            "dep_block_new_zero", "dep_block_new_ff", "dep_block_new_undecodable", "dep_block_new_infinity"]
 REQUIRED = {"C02": {"quick": _C02_REQ, "thorough": _C02_REQ}, "C01": {"quick": _C01_REQ, "thorough": _C01_REQ}}
 
 JAVA_OPTS = "-Xss512m -XX:TieredStopAtLevel=1 -XX:ParallelGCThreads=2 -XX:CICompilerCount=1"
